@@ -49,6 +49,15 @@ type Execution struct {
 	Blocked     []string // "<thread>@<label>" of the unfinished threads at a deadlock / horizon
 	Horizon     bool     // cut at MaxPoints
 	Panics      []ThreadPanic
+	Diverged    bool // the recorded prefix could not be replayed (only with Explorer.TolerateDivergence)
+}
+
+// Divergence: the prefix of an earlier execution did not replay (other enabled set at point At).
+type Divergence struct {
+	Prefix     []int      `json:"prefix"`
+	At         int        `json:"at"`
+	EnabledNow []int      `json:"enabled_now"`
+	Recorded   []PointRec `json:"recorded"`
 }
 
 func (x *Execution) Choices() []int {
@@ -191,7 +200,13 @@ type Explorer struct {
 	// built process-wide state of the code under test (caches, pools) is in its steady state when the recorded,
 	// replayed executions begin. State that still leaks from one execution into the next is a replay divergence
 	// (hard harness error).
-	WarmUp                     int
+	WarmUp int
+	// TolerateDivergence: instead of ending the process with a HARNESS-ERROR, a replay divergence ends the
+	// exploration (Stopped) and is handed to the caller in Diverged, which has to decide what it means (the
+	// caller re-executes the prefix in fresh processes: code that is deterministic from a fresh start but not
+	// when re-executed in one process carries state from one execution into the next).
+	TolerateDivergence         bool
+	Diverged                   *Divergence
 	Stop                       func() bool // optional budget test, polled between executions
 	Bound                      int
 	Executions, PointsExecuted int64
@@ -328,7 +343,20 @@ func (e *Explorer) Run(prefix []int, expect []PointRec) *Execution {
 		if i < len(prefix) {
 			p.Chosen = prefix[i]
 			if p.Chosen >= len(en) || i < len(expect) && !equalInts(expect[i].Enabled, en) {
-				harnessError("replay divergence at point %d: choice %d, enabled now %v, recorded %v (prefix %v)", i, p.Chosen, en, expect, prefix)
+				if !e.TolerateDivergence {
+					harnessError("replay divergence at point %d: choice %d, enabled now %v, recorded %v (prefix %v)", i, p.Chosen, en, expect, prefix)
+				}
+				e.Diverged = &Divergence{Prefix: append([]int(nil), prefix...), At: i, EnabledNow: append([]int(nil), en...), Recorded: append([]PointRec(nil), expect...)}
+				x.Diverged = true
+				r.aborting = true
+				for _, t := range r.threads {
+					if t.state != stFinished {
+						t.state = stRunning
+						t.resume <- struct{}{}
+						<-r.yield
+					}
+				}
+				break
 			}
 		}
 		t := r.threads[en[p.Chosen]]
@@ -371,6 +399,10 @@ func (e *Explorer) explore(prefix []int, expect []PointRec, depth int) {
 		}
 	}
 	x := e.Run(prefix, expect)
+	if x.Diverged {
+		e.Stopped = true
+		return
+	}
 	if mine {
 		e.Executions++
 		if e.ByCost == nil {
